@@ -26,7 +26,7 @@ def streams(ctx):
                 for w in words[i:i + 50]:
                     lines.append("Feed " + gc.fmt(w))
     # (b) valid traffic with garbage prefixes and single faults at every position
-    nmix = 1500 if thorough else 300
+    nmix = 20000 if thorough else 300
     for i in range(nmix):
         name = gc.NAMES[i % 3]
         cap = rng.choice([2, 3, 4, 5, 8, 16, 33])
@@ -49,7 +49,7 @@ def streams(ctx):
         lines.append("Feed " + gc.fmt(stream))
     # (b2) frames around the 8-bit boundary: payloads of 250..258 bytes into buffers of 255..300 bytes (counts and sizes
     # that do not fit a byte), back to back, all three receivers
-    for i in range(60 if thorough else 15):
+    for i in range(400 if thorough else 15):
         name = gc.NAMES[i % 3]
         cap = rng.choice([255, 256, 257, 258, 259, 260, 300])
         lines.append("R %s %d" % (name, cap))
@@ -60,10 +60,31 @@ def streams(ctx):
             p = [rng.choice(sp) if rng.random() < 0.05 else rng.randrange(256) for _ in range(n)]
             stream += gc.frame(name, p)
         lines.append("Feed " + gc.fmt(stream))
+    # (b3) the configurable receiver with other contexts than the two shipped ones: markers and escape codes from both halves of the
+    # byte range (the context fields are plain char), distinct and coinciding markers; short exhaustive words + traffic with faults
+    for i in range(600 if thorough else 60):
+        name = gc.random_context(rng)
+        sp = gc.special_bytes(name)
+        cap = rng.choice([2, 3, 4, 5, 8, 16, 33])
+        lines.append("R %s %d" % (name, cap))
+        alpha = sp + [0, 97, 255]
+        for _ in range(60):
+            lines.append("Feed " + gc.fmt([rng.choice(alpha) for _ in range(rng.randrange(1, 6))]))
+        lines.append("R %s %d" % (name, cap))
+        stream = [rng.choice(sp) if rng.random() < 0.35 else rng.randrange(256) for _ in range(rng.randrange(0, 12))]
+        for _ in range(rng.randrange(2, 7)):
+            p = [rng.choice(sp) if rng.random() < 0.4 else rng.randrange(256) for _ in range(rng.randrange(0, cap + 2))]
+            f = gc.frame(name, p)
+            k = rng.random()
+            if k < 0.12 and len(f) > 2: f = f[:rng.randrange(1, len(f))]
+            elif k < 0.24: f[rng.randrange(len(f))] = rng.choice(sp)
+            elif k < 0.32: f.insert(rng.randrange(len(f) + 1), rng.choice(sp))
+            stream += f
+        lines.append("Feed " + gc.fmt(stream))
     # witnesses of the recorded legacy findings (always executed)
     lines += ["R legacy 8", "Feed 255,172", "R legacy 3", "Feed 173,0,255,172", "R legacy 8", "Feed 172,1,2,%d,172" % gc.crc8([1, 2])]
     # (c) pure noise
-    for i in range(200 if thorough else 60):
+    for i in range(3000 if thorough else 60):
         name = gc.NAMES[i % 3]
         lines.append("R %s %d" % (name, rng.choice([2, 3, 5, 9])))
         sp = gc.special_bytes(name)
@@ -88,6 +109,7 @@ def check(ctx):
     ctx.report(bad)
     ctx.assumptions += [
         "exhaustive: product of the transcribed receiver automata and the monitor for capacities of GstuffMC*.cfg over the marker/escape bytes, two data bytes and the checksum-completing byte - streams of every length; bound to the code by status-by-status comparison (impl_status drift clause)",
+        "contexts: the two shipped alphabets and random configured contexts whose escape codes differ from the markers (Gstuff.tla ValidCx; otherwise STUB START is ambiguous and no receiver satisfies the statement)",
         "coinciding markers: a delivery is owed for the second of two back-to-back well-formed frames (M f1 M M f2 M); an OVERFLOW report is owed only for distinct markers",
         "buffer overruns beyond the 8 logged guard bytes are observed by ASan",
     ]
@@ -101,7 +123,7 @@ def replay(ctx, path):
     feed = []
     for e in d["execution"]:
         if e["e"] == "Reset":
-            lines.append("R %s %d" % (e["name"], e["cap"]))
+            lines.append("R %s %d" % ("cx:" + ":".join(str(x) for x in e["cx"]) if e["name"] == "custom" else e["name"], e["cap"]))
         elif e["e"] == "Recv":
             feed.append(e["c"])
         elif e["e"] == "Encode":
